@@ -15,8 +15,12 @@ RULE = ("per (legacy name, observe expression) pair: every history up to the "
 EXPLANATION = ("direct exploration; reference = reachability interpreter "
                "shared with C08, plus differential agreement between the two "
                "APIs")
-BOUNDS = {"quick": "7 name pairs, depth 4 with dedup, mutations on the first "
-                   "3 created objects", "thorough": "depth 5"}
+BOUNDS = {"quick": "7 name pairs x 3 handler-equality variants, depth 4 with "
+                   "dedup, mutations on the first 3 created objects; "
+                   "decorator-registered handlers with copy events: all "
+                   "histories of length<=3 over 8 events; one ui-dispatch "
+                   "worker-thread cell per name style",
+          "thorough": "depth 5; decorated histories of length<=4"}
 ASSUMPTIONS = ["graphs are trees (statement)", "4-argument handler signature",
                "in-place mutation of a '.' container link is neither required"
                " nor forbidden for the legacy handler"]
